@@ -544,6 +544,14 @@ class Comparer:
                 if j is not None:
                     ib = ib[:kb] + [ib[j]] + ib[kb:j] + ib[j + 1:]
                     xb = ib[kb]
+            # `if c: <exit> [else: B]` followed by REST  ==  `if c: <exit> else: B; REST`: spell both sides alike
+            if xa[0] == 'if' and xb[0] == 'if':
+                if ka + 1 < len(ia) and all(self._terminates_deep(alt[1]) for alt in xa[1]):
+                    xa = ('if', xa[1], list(xa[2]) + ia[ka + 1:], xa[-1])
+                    ia = ia[:ka] + [xa]
+                if kb + 1 < len(ib) and all(self._terminates_deep(alt[1]) for alt in xb[1]):
+                    xb = ('if', xb[1], list(xb[2]) + ib[kb + 1:], xb[-1])
+                    ib = ib[:kb] + [xb]
             # one-sided ignorable items (projection mode: output-only statements)
             if xa[0] != xb[0] or not self._same_shape(xa, xb):
                 if self._ignorable_item(xa, self.a):
@@ -752,6 +760,17 @@ class Comparer:
     @staticmethod
     def _terminates(body) -> bool:
         return bool(body) and body[-1][0] in ('return', 'raise', 'jump')
+
+    @classmethod
+    def _terminates_deep(cls, body) -> bool:
+        if not body:
+            return False
+        last = body[-1]
+        if last[0] in ('return', 'raise', 'jump'):
+            return True
+        if last[0] == 'if':
+            return bool(last[2]) and all(cls._terminates_deep(alt[1]) for alt in last[1]) and cls._terminates_deep(last[2])
+        return False
 
     def _cond_eq_quiet(self, ca, cb, fa, fb) -> bool:
         pts = self.points
